@@ -263,11 +263,62 @@ def derived_and_mutated_key_cases(ctx):
                           {"suite": "c13-derived", "before": [t1, s1.name], "after": [key.tonic, key.scale.name], "probe": probe})
 
 
+
+def degree_chord_cases(ctx):
+    """PDegree over CHORDS of degrees (lists / tuples, nested in a sequence) with a Scale or a Key (any tonic) as its scale
+    argument: every voice is the degree-mapping formula of that voice — tonic + scale[d mod n] + octave x floor(d / n) —
+    exactly as for single degrees (implementation-only oracle; the formula in integers)."""
+    common.ensure_repo_on_path()
+    import isobar as iso
+    r = ctx.rng
+    names = sorted(n for n in iso.Scale.dict if isinstance(n, str))
+    for i in range(ctx.scale(200, 6000)):
+        if r.random() < 0.8:
+            sc = iso.Scale.byname(r.choice(names))
+        else:
+            before = dict(iso.Scale.dict)
+            sc = iso.Scale(sorted(r.sample(range(12), r.randint(1, 7))), "c13 chord scale")
+            iso.Scale.dict.clear()                       # Scale() registers every new name: keep the library's table as it was
+            iso.Scale.dict.update(before)
+        tonic = r.choice([0, 0, 2, 5, 7, 11, r.randint(0, 11)])
+        arg_kind = r.choice(["key", "key", "scale"])
+        arg = iso.Key(tonic, sc) if arg_kind == "key" else sc
+        steps = []
+        for _ in range(r.randint(1, 5)):
+            k = r.random()
+            if k < 0.3:
+                steps.append(r.randint(-14, 21))
+            elif k < 0.4:
+                steps.append(None)
+            else:
+                ch = [r.randint(-14, 21) for _ in range(r.randint(1, 4))]
+                steps.append(tuple(ch) if r.random() < 0.5 else ch)
+        n, octv = len(sc.semitones), sc.octave_size
+
+        def f(d):
+            return (tonic if arg_kind == "key" else 0) + sc.semitones[d % n] + octv * (d // n)
+        exp = [None if st is None else (f(st) if isinstance(st, int) else tuple(f(d) for d in st)) for st in steps]
+        try:
+            got = [tuple(v) if isinstance(v, (list, tuple)) else v for v in iso.PDegree(iso.PSequence(list(steps), 1), arg).all()]
+        except Exception as ex:  # noqa: BLE001
+            got = "raised %s" % type(ex).__name__
+        ctx.case(("degree-chords", sc.name, tuple(sc.semitones), tonic, arg_kind, repr(steps)), nontrivial=True, validated=False,
+                 sample={"degree_chords": {"scale": sc.name, "tonic": tonic, "argument": arg_kind, "degrees": repr(steps)}} if i < 3 else None)
+        ctx.count("degree-chords:" + arg_kind)
+        if got != exp:
+            ctx.violation("C13:degree:chord-voices",
+                          "PDegree(%r, %s) over %s (tonic %d): %s, the degree-mapping formula gives %s"
+                          % (steps, arg_kind, sc.semitones, tonic, got, exp),
+                          {"suite": "c13-degree-chords", "scale": list(sc.semitones), "octave_size": octv, "tonic": tonic, "argument": arg_kind,
+                           "degrees": repr(steps), "first_failing_clause": "scale degree d maps to tonic + pcs[d mod n] + octave x floor(d/n)"})
+
+
 def run(ctx):
     common.ensure_repo_on_path()
     import isobar as iso
     changing_key_cases(ctx)
     derived_and_mutated_key_cases(ctx)
+    degree_chord_cases(ctx)
     check_table(ctx, iso)
     cases = names_cases(ctx.rng, iso)
     cases += builtin_cases(ctx.rng, iso)
